@@ -108,7 +108,7 @@ NeverDisturbedWithItems ==
   ~ \E i \in 1..Len(gens) : ~gens[i].clean /\ ~gens[i].dirty /\ Len(gens[i].out) >= 2
 NeverNamedThread ==      \* some clean listing does show a thread name in a record about another thread
   ~ \E i \in 1..Len(gens) : gens[i].clean /\ gens[i].kind = "tr" /\
-        \E j \in 1..Len(gens[i].out) : "ttid" \in DOMAIN gens[i].out[j].f /\ gens[i].out[j].f.name # NoText
+        \E j \in 1..Len(gens[i].out) : gens[i].out[j].f.c = "TERM" /\ gens[i].out[j].f.name # NoText
 NeverKnownProcess ==
   ~ \E i \in 1..Len(gens) : gens[i].clean /\ \E j \in 1..Len(gens[i].out) : "proc" \in DOMAIN gens[i].out[j] /\ gens[i].out[j].proc.known
 =============================================================================
